@@ -19,9 +19,9 @@ for pid in ALL:
         "level_claimed": {
             "category": "proof",
             "text": c.get("level_text", "Theorems in coq/Properties/%s.v about the Gallina model, closed under the global context; model tied to /repo by generated tables and a correspondence run on every check" % pid),
-            "design_ref": "DESIGN.md §4 " + pid,
+            "design_ref": "DESIGN.md §4 " + pid + " and §9",
         },
-        "level_note": c.get("level_note", "; ".join(c.get("trusted", []))),
+        "level_note": c.get("level_note", "theorems: " + ", ".join(c.get("theorems", [])) + " || hypotheses / not proved: " + "; ".join(c.get("assumptions", []) or ["none"]) + " || modelled, not verified: " + "; ".join(c.get("trusted", []))),
         "technique": c.get("technique", "machine-checked proof in Coq 8.16.1 of a hand-written Gallina model + correspondence check (vm_compute) against the implementation"),
     })
 na = [{"property_id": p, "reason": "check not built yet at this commit (build in progress, see DESIGN.md §7)"} for p in ALL if p not in PROPS]
